@@ -109,6 +109,52 @@ def maplist_sorts_before_parsing(U, sel):
     U.ensures("parse order is the load order for every permutation of the map entries", ok_all, counterexample=bad)
 
 
+@unit("C07", covers=[(DEX, "MapList.__init__")], level="bounded", samples=150,
+      note="all 21 map item types present, seeded random file orders; parse()/registration sequence must be the load order")
+def full_map_random_orders(U):
+    m = U.mod(DEX)
+    T = m.TypeMapItem
+    seed = U.int("seed", 0, 1 << 30)
+    types = list(T)
+    random.Random(seed).shuffle(types)
+    order = T.determine_load_order()
+    want = sorted(types, key=lambda t: order[t])
+    log = []
+
+    class FakeItem:
+        def __init__(self, buff, cm):
+            self.type = T(struct.unpack("<H", buff.read(2))[0])
+            buff.read(10)
+
+        def get_length(self):
+            return 12
+
+        def get_type(self):
+            return self.type
+
+        def parse(self):
+            log.append(self.type)
+
+        def get_item(self):
+            return 1
+
+    class FakeCM:
+        packer = U.packer()
+
+        def add_type_item(self, t, mi, item):
+            pass
+
+    saved = m.MapItem
+    m.MapItem = FakeItem
+    try:
+        import io
+        data = struct.pack("<I", len(types)) + b"".join(struct.pack("<HHII", int(t), 0, 1, 0) for t in types)
+        o = U.call(m.MapList, FakeCM(), 0, io.BytesIO(data))
+    finally:
+        m.MapItem = saved
+    U.ensures("parse order is the load order whatever the file order", o.ok and log == want, got=[t.name for t in log][:8])
+
+
 def _permute_map(data, rng):
     """same file with its map_list entries permuted and the checksum recomputed"""
     b = bytearray(data)
